@@ -53,11 +53,11 @@ func (dc *DocumentChunker) ChunkDocument(doc *model.Document) *ChunkCollection {
 	// Build section context from headings
 	toc := doc.TableOfContents()
 	currentSection := []string{}
-	currentHeadingLevel := 0
+	sectionLevels := []int{}
 
 	// Process each page
 	for _, page := range doc.Pages {
-		pageChunks := dc.chunkPage(page, docTitle, &currentSection, &currentHeadingLevel, toc, &chunkIndex)
+		pageChunks := dc.chunkPage(page, docTitle, &currentSection, &sectionLevels, toc, &chunkIndex)
 		chunks = append(chunks, pageChunks...)
 	}
 
@@ -70,11 +70,17 @@ func (dc *DocumentChunker) ChunkDocument(doc *model.Document) *ChunkCollection {
 }
 
 // chunkPage chunks a single page
-func (dc *DocumentChunker) chunkPage(page *model.Page, docTitle string, currentSection *[]string, currentHeadingLevel *int, toc []model.TOCEntry, chunkIndex *int) []*Chunk {
+func (dc *DocumentChunker) chunkPage(page *model.Page, docTitle string, currentSection *[]string, sectionLevels *[]int, toc []model.TOCEntry, chunkIndex *int) []*Chunk {
 	var chunks []*Chunk
 
 	if page == nil {
 		return chunks
+	}
+
+	// Every chunk gets its own copy of the section path: the live slice is
+	// rewritten in place by later headings.
+	sectionPath := func() []string {
+		return append([]string{}, *currentSection...)
 	}
 
 	// Process elements maintaining document order
@@ -100,10 +106,10 @@ func (dc *DocumentChunker) chunkPage(page *model.Page, docTitle string, currentS
 
 				// Update section path
 				headingLevel := getHeadingLevel(e.Text, toc, page.Number)
-				updateSectionPath(currentSection, currentHeadingLevel, headingLevel, e.Text)
+				pushSection(currentSection, sectionLevels, headingLevel, e.Text)
 
 				// Create heading chunk
-				chunk := dc.createHeadingChunk(e.Text, docTitle, *currentSection, headingLevel, page.Number, chunkIndex)
+				chunk := dc.createHeadingChunk(e.Text, docTitle, sectionPath(), headingLevel, page.Number, chunkIndex)
 				chunks = append(chunks, chunk)
 			} else {
 				// Accumulate text
@@ -111,7 +117,7 @@ func (dc *DocumentChunker) chunkPage(page *model.Page, docTitle string, currentS
 					currentBlock.text += "\n\n"
 				}
 				currentBlock.text += e.Text
-				currentBlock.sectionPath = append([]string{}, *currentSection...)
+				currentBlock.sectionPath = sectionPath()
 				currentBlock.elementTypes = appendUnique(currentBlock.elementTypes, "paragraph")
 			}
 
@@ -120,10 +126,10 @@ func (dc *DocumentChunker) chunkPage(page *model.Page, docTitle string, currentS
 			flushTextBlock()
 
 			// Update section path
-			updateSectionPath(currentSection, currentHeadingLevel, e.Level, e.Text)
+			pushSection(currentSection, sectionLevels, e.Level, e.Text)
 
 			// Create heading chunk
-			chunk := dc.createChunkFromHeading(e, docTitle, *currentSection, page.Number, chunkIndex)
+			chunk := dc.createChunkFromHeading(e, docTitle, sectionPath(), page.Number, chunkIndex)
 			chunks = append(chunks, chunk)
 
 		case *model.List:
@@ -131,7 +137,7 @@ func (dc *DocumentChunker) chunkPage(page *model.Page, docTitle string, currentS
 			flushTextBlock()
 
 			// Create list chunk
-			chunk := dc.createListChunk(e, docTitle, *currentSection, page.Number, chunkIndex)
+			chunk := dc.createListChunk(e, docTitle, sectionPath(), page.Number, chunkIndex)
 			chunks = append(chunks, chunk)
 
 		case *model.Table:
@@ -139,7 +145,7 @@ func (dc *DocumentChunker) chunkPage(page *model.Page, docTitle string, currentS
 			flushTextBlock()
 
 			// Create table chunk
-			chunk := dc.createTableChunk(e, docTitle, *currentSection, page.Number, chunkIndex)
+			chunk := dc.createTableChunk(e, docTitle, sectionPath(), page.Number, chunkIndex)
 			chunks = append(chunks, chunk)
 
 		case *model.Image:
@@ -148,7 +154,7 @@ func (dc *DocumentChunker) chunkPage(page *model.Page, docTitle string, currentS
 
 			// Create image chunk if it has alt text
 			if e.AltText != "" {
-				chunk := dc.createImageChunk(e, docTitle, *currentSection, page.Number, chunkIndex)
+				chunk := dc.createImageChunk(e, docTitle, sectionPath(), page.Number, chunkIndex)
 				chunks = append(chunks, chunk)
 			}
 		}
@@ -436,7 +442,26 @@ func getHeadingLevel(text string, toc []model.TOCEntry, pageNum int) int {
 	return 1 // Default to level 1
 }
 
-// updateSectionPath updates the section path based on heading level
+// pushSection opens a section for a heading of the given level. Every open
+// section of the same or a deeper level is closed first, whatever its position
+// in the path, so skipped levels (H1, H3, H3) and documents that start below
+// H1 keep a correct chain of enclosing headings. levels runs parallel to
+// sectionPath.
+func pushSection(sectionPath *[]string, levels *[]int, level int, headingText string) {
+	headingText = strings.TrimSpace(headingText)
+
+	for n := len(*levels); n > 0 && (*levels)[n-1] >= level; n = len(*levels) {
+		*levels = (*levels)[:n-1]
+		*sectionPath = (*sectionPath)[:n-1]
+	}
+
+	*sectionPath = append(*sectionPath, headingText)
+	*levels = append(*levels, level)
+}
+
+// updateSectionPath updates the section path based on heading level. It pops by
+// path length and is therefore only right for documents without skipped
+// levels; the chunker uses pushSection.
 func updateSectionPath(sectionPath *[]string, currentLevel *int, newLevel int, headingText string) {
 	headingText = strings.TrimSpace(headingText)
 
